@@ -1130,6 +1130,19 @@ int define_variable (char *name, int type, int hide) {
   return n;
 }
 
+/**
+ * @brief F_GLOBAL, F_GLOBAL_LVALUE and F_FOREACH name a global variable in a
+ * one byte operand: code at this level reaches the first 256 variables of the
+ * object (the inherited ones come first) and no others.
+ * @return The index.
+ */
+int check_global_index (int n) {
+
+  if (n > 255)
+    yyerror ("Too many global variables (only the first 256 of an object can be used by name).");
+  return n;
+}
+
 int define_new_variable (char *name, int type) {
 
   int n;
